@@ -3,7 +3,7 @@
 premise-satisfying input is a violation (an answer is required)."""
 from checks import magpipe
 
-PROPS = [("Moyo.Props.C12", "Moyo/Props/C12.lean")]
+PROPS = [("Moyo.Props.C12", "Moyo/Props/C12.lean"), ("Moyo.Props.C12Stages", "Moyo/Props/C12Stages.lean")]
 
 TRUSTED = [
     "premise validation of the generator (the magnetic symmetry group of the generated structure is exactly the generating group: position gap 0.2 A, moment gap 0.05) is a brute-force search over (R,t,theta) in Rust, independent of moyo's search code",
@@ -21,7 +21,7 @@ def run(tier, seed):
     return magpipe.run_property(
         "C12", tier, seed, PROPS,
         "G-mag cases (see plan): every selected UNI number in its own cell and in re-described cells incl. reversal of all moments and all-zero moments; non-trivial when an answer was returned for a UNI number > 2 in a re-described cell; distinct = distinct input magnetic cells + parameters",
-        nontrivial, trusted=TRUSTED)
+        nontrivial, trusted=TRUSTED, stages=["s5m"])
 
 
 def replay(path):
